@@ -22,6 +22,17 @@ import (
 )
 
 func Merge(lists ...[]types.Entry) []types.Entry {
+	return merge(true, lists...)
+}
+
+// MergeVersions merges lists of versioned entries (key@ts) and keeps tombstones:
+// a tombstone is the version that shadows the older versions of its key, so dropping
+// it in a compaction would resurrect them.
+func MergeVersions(lists ...[]types.Entry) []types.Entry {
+	return merge(false, lists...)
+}
+
+func merge(dropTombstones bool, lists ...[]types.Entry) []types.Entry {
 	h := &Heap{}
 	heap.Init(h)
 
@@ -55,7 +66,7 @@ func Merge(lists ...[]types.Entry) []types.Entry {
 	var merged []types.Entry
 
 	for _, entry := range latest {
-		if entry.Tombstone {
+		if dropTombstones && entry.Tombstone {
 			continue
 		}
 		merged = append(merged, entry)
